@@ -1,0 +1,105 @@
+//go:build verif
+
+/*
+ * Licensed to the Apache Software Foundation (ASF) under one or more
+ * contributor license agreements.  See the NOTICE file distributed with
+ * this work for additional information regarding copyright ownership.
+ * The ASF licenses this file to You under the Apache License, Version 2.0
+ * (the "License"); you may not use this file except in compliance with
+ * the License.  You may obtain a copy of the License at
+ *
+ *     http://www.apache.org/licenses/LICENSE-2.0
+ *
+ * Unless required by applicable law or agreed to in writing, software
+ * distributed under the License is distributed on an "AS IS" BASIS,
+ * WITHOUT WARRANTIES OR CONDITIONS OF ANY KIND, either express or implied.
+ * See the License for the specific language governing permissions and
+ * limitations under the License.
+ */
+
+package compressor
+
+// Verification contracts (comment-only, tag verif) for property C08, compression: what Compress hands
+// out must be something Decompress can read back. The compression libraries are the environment; what
+// is assumed of them is their usage protocol:
+//   - a stream compressor (flate, gzip, zlib, bzip2 writer) has produced a complete stream only once
+//     Close has returned nil; Flush does not terminate the stream (ghost.stream_open);
+//   - an lz4 block of n bytes decodes to at most 255*n bytes (format bound), and UncompressBlock
+//     succeeds exactly when the destination can hold the decoded data (ghost.lz4_decoded_len).
+// Checked: every stream compressor terminates its stream before it takes the bytes out of the buffer,
+// and the lz4 decompressor offers a destination that holds every valid block.
+//@ ghost var stream_open bool
+//@ ghost var lz4_decoded_len int
+//@ ext compress/flate.NewWriter
+//@   modifies ghost.stream_open
+//@   ensures (result1 == nil ==> result0 != nil && ghost.stream_open) && (result1 != nil ==> ghost.stream_open == old(ghost.stream_open))
+//@ ext (*compress/flate.Writer).Write
+//@   ensures true
+//@ ext (*compress/flate.Writer).Flush
+//@   ensures true
+//@ ext (*compress/flate.Writer).Close
+//@   modifies ghost.stream_open
+//@   ensures (result == nil ==> !ghost.stream_open) && (result != nil ==> ghost.stream_open == old(ghost.stream_open))
+//@ ext compress/gzip.NewWriter
+//@   modifies ghost.stream_open
+//@   ensures result != nil && ghost.stream_open
+//@ ext (*compress/gzip.Writer).Write
+//@   ensures true
+//@ ext (*compress/gzip.Writer).Flush
+//@   ensures true
+//@ ext (*compress/gzip.Writer).Close
+//@   modifies ghost.stream_open
+//@   ensures (result == nil ==> !ghost.stream_open) && (result != nil ==> ghost.stream_open == old(ghost.stream_open))
+//@ ext github.com/klauspost/compress/zlib.NewWriter
+//@   modifies ghost.stream_open
+//@   ensures result != nil && ghost.stream_open
+//@ ext (*github.com/klauspost/compress/zlib.Writer).Write
+//@   ensures true
+//@ ext (*github.com/klauspost/compress/zlib.Writer).Close
+//@   modifies ghost.stream_open
+//@   ensures (result == nil ==> !ghost.stream_open) && (result != nil ==> ghost.stream_open == old(ghost.stream_open))
+//@ ext github.com/dsnet/compress/bzip2.NewWriter
+//@   modifies ghost.stream_open
+//@   ensures (result1 == nil ==> result0 != nil && ghost.stream_open) && (result1 != nil ==> ghost.stream_open == old(ghost.stream_open))
+//@ ext (*github.com/dsnet/compress/bzip2.Writer).Write
+//@   ensures true
+//@ ext (*github.com/dsnet/compress/bzip2.Writer).Close
+//@   modifies ghost.stream_open
+//@   ensures (result == nil ==> !ghost.stream_open) && (result != nil ==> ghost.stream_open == old(ghost.stream_open))
+
+//@ func (*DeflateCompress).Compress
+//@   prop C08
+//@   requires !ghost.stream_open
+//@   modifies ghost.stream_open
+//@   ensures success-is-a-complete-stream: result1 == nil ==> called("Bytes#1")
+//@   at call Bytes#1: assert stream-terminated-before-its-bytes-are-taken: !ghost.stream_open
+//@   may_panic
+//@ func (*Gzip).Compress
+//@   prop C08
+//@   requires !ghost.stream_open
+//@   modifies ghost.stream_open
+//@   ensures success-is-a-complete-stream: result1 == nil ==> called("Bytes#1")
+//@   at call Bytes#1: assert stream-terminated-before-its-bytes-are-taken: !ghost.stream_open
+//@   may_panic
+//@ func (Zip).Compress
+//@   prop C08
+//@   requires !ghost.stream_open
+//@   modifies ghost.stream_open
+//@   ensures success-is-a-complete-stream: result1 == nil ==> called("Bytes#1")
+//@   at call Bytes#1: assert stream-terminated-before-its-bytes-are-taken: !ghost.stream_open
+//@   may_panic
+//@ func (*Bzip2).Compress
+//@   prop C08
+//@   requires !ghost.stream_open
+//@   modifies ghost.stream_open
+//@   ensures success-is-a-complete-stream: result1 == nil ==> called("Bytes#1")
+//@   at call Bytes#1: assert stream-terminated-before-its-bytes-are-taken: !ghost.stream_open
+//@   may_panic
+
+//@ ext github.com/pierrec/lz4/v4.UncompressBlock
+//@   ensures (len(dst) >= ghost.lz4_decoded_len ==> result1 == nil && result0 == ghost.lz4_decoded_len) && (len(dst) < ghost.lz4_decoded_len ==> result1 != nil)
+//@ func (*Lz4).Decompress
+//@   prop C08
+//@   requires len(in) >= 1 && ghost.lz4_decoded_len >= 0 && ghost.lz4_decoded_len <= 255 * len(in)
+//@   ensures reads-every-valid-block: result1 == nil && len(result0) == ghost.lz4_decoded_len
+//@   may_panic
